@@ -307,6 +307,29 @@ def run(ctx):
                f'StatefulInterpreter.{meth} must accept only when `{tparams[0]}` equals the top of the tracked stack (the instruction written '
                f'for it has no operand and acts on the machine\'s top): otherwise the generator goes on with another term than the machine',
                py.where(w.stateful.module, mf.node))
+    # the phases advance gamma -> claim -> proof and in no other way (the machine is run once per file, in that order)
+    root = py.cls('Interpreter')
+    for trans, frm, to in (('into_claim_phase', 'Gamma', 'Claim'), ('into_proof_phase', 'Claim', 'Proof')):
+        mf = PM.level_facts(py, root, trans)
+        ctx.require(mf is not None and mf.paths, f'anchor vanished: Interpreter.{trans}')
+        F, T_ = ('attr', ('name', 'ExecutionPhase'), frm), ('attr', ('name', 'ExecutionPhase'), to)
+        SP = ('attr', PM.SELF, 'phase')
+        ok = all(any(b is True and c in (('cmp', '==', F, SP), ('cmp', '==', SP, F), ('cmp', 'is', SP, F), ('cmp', 'is', F, SP)) for c, b in rec['conds'])
+                 and [o for o in rec['other'] if o[0] == 'set' and o[1] == 'self.phase'] == [('set', 'self.phase', T_)] for rec in mf.paths)
+        ctx.ob('phase-reset', f'Interpreter.{trans}/{frm.lower()}-to-{to.lower()}', ok,
+               f'Interpreter.{trans} must accept only in the {frm} phase and set the phase to {to}', py.where(root.module, mf.node))
+    # the machine's Publish does one of three things depending on the phase; the generator has three calls, each of which is that
+    # thing: publish_axiom only in the gamma phase, publish_claim only in the claim phase, publish_proof only in the proof phase
+    for meth, ph in (('publish_axiom', 'Gamma'), ('publish_claim', 'Claim'), ('publish_proof', 'Proof')):
+        mf = PM.level_facts(py, w.basic, meth)
+        ctx.require(mf is not None and mf.paths, f'anchor vanished: BasicInterpreter.{meth}')
+        PH = ('attr', ('name', 'ExecutionPhase'), ph)
+        SP = ('attr', PM.SELF, 'phase')
+        ok = all(any(b is True and c in (('cmp', '==', PH, SP), ('cmp', '==', SP, PH), ('cmp', 'is', SP, PH), ('cmp', 'is', PH, SP))
+                     for c, b in rec['conds']) for rec in mf.paths)
+        ctx.ob('effect', f'{meth}/only-in-the-{ph.lower()}-phase', ok,
+               f'BasicInterpreter.{meth} must accept only in the {ph} phase: in another phase the Publish instruction written for it does '
+               f'something else on the machine', py.where(w.basic.module, mf.node))
     # "modulo the numbering of symbols": the wiring rows identify a symbol with the number written for it, which is sound only if
     # the numbering is ONE injective table for the three streams (shared with C03)
     from . import c03
